@@ -152,7 +152,7 @@ func buildC06(e *engine, p *rt.Package) {
 					}
 					v, verr := c06Validator.ValidateSchema(docID, schema, inst)
 					if verr != nil {
-						panic(verr)
+						panic(infraError(fmt.Sprint(verr)))
 					}
 					if !v.Valid {
 						sb, _ := json.Marshal(schema)
